@@ -272,6 +272,20 @@ func (c *c18) choices(t reflect.Type, recv reflect.Type) ([]argGen, bool) {
 		return []argGen{konst("<second container>", c.other.raw), konst("<same container>", c.d.raw)}, true
 	case t == boolType:
 		return []argGen{konst("true", true), konst("false", false)}, true
+	case t.Kind() == reflect.Ptr && t.Elem().Kind() == reflect.Struct && isLibraryType(t):
+		// e.g. a tree node (IteratorAt): the non-nil results of the parameterless methods of
+		// the container that return this type
+		out := []argGen{}
+		rv := reflect.ValueOf(c.d.raw)
+		for _, m := range methodsOf(recv) {
+			if m.Type.NumIn() == 1 && m.Type.NumOut() >= 1 && m.Type.Out(0) == t && !mutatorNames[m.Name] {
+				res := rv.MethodByName(m.Name).Call(nil)[0]
+				if !res.IsNil() {
+					out = append(out, argGen{"<result of " + m.Name + "()>", func(*[]string) reflect.Value { return res }})
+				}
+			}
+		}
+		return out, len(out) > 0
 	}
 	return nil, false
 }
@@ -453,6 +467,11 @@ func runC18(idx int, rng *rand.Rand, kind string, cr *caseResult) {
 	var wg sync.WaitGroup
 	var cmpCount, mismatches int64
 	var cntMu sync.Mutex
+	type mismatch struct {
+		rc   *readCall
+		text string
+	}
+	var differing []mismatch
 	for r := 0; r < readers; r++ {
 		wg.Add(1)
 		go func(r int) {
@@ -470,8 +489,11 @@ func runC18(idx int, rng *rand.Rand, kind string, cr *caseResult) {
 					}
 					if !rc.unstable && text != rc.expect {
 						bad++
-						c.violate("C18:concurrent", "read-only call "+rc.label+" returned a different answer while other readers were active",
-							fmt.Sprintf("sequential answer: %.600s\nconcurrent answer: %.600s", rc.expect, text))
+						cntMu.Lock()
+						if len(differing) < 50 {
+							differing = append(differing, mismatch{rc, text})
+						}
+						cntMu.Unlock()
 					}
 				}
 			}
@@ -482,6 +504,24 @@ func runC18(idx int, rng *rand.Rand, kind string, cr *caseResult) {
 		}(r)
 	}
 	wg.Wait()
+	// An answer that differs from the sequential one is a violation unless the call does not
+	// have ONE sequential answer (LinkedHashSet's set algebra ranges over a Go map): the call
+	// is repeated sequentially; if it ever disagrees with itself it is not compared.
+	for _, m := range differing {
+		if m.rc.unstable {
+			continue
+		}
+		for rep := 0; rep < 40 && !m.rc.unstable; rep++ {
+			if text, p := safeRun(m.rc); p == "" && text != m.rc.expect {
+				m.rc.unstable = true
+				cr.Checks["unstable_answers_not_compared"]++
+			}
+		}
+		if !m.rc.unstable {
+			c.violate("C18:concurrent", "read-only call "+m.rc.label+" returned a different answer while other readers were active",
+				fmt.Sprintf("sequential answer (reproduced 40 times): %.600s\nconcurrent answer: %.600s", m.rc.expect, m.text))
+		}
+	}
 	cr.Checks["concurrent_calls"] += int(cmpCount)
 	cr.Checks["concurrent_states"]++
 	if fp1 := fp(); fp1 != fp0 {
